@@ -167,6 +167,62 @@ class FakeNumpy:
     complex64 = type('complex64', (), {})
     complex128 = type('complex128', (), {})
     intp = A.IntP
+    # abstract scalar types (np.issubdtype)
+    generic = type('generic', (), {})
+    number = type('number', (), {})
+    integer = type('integer', (), {})
+    signedinteger = type('signedinteger', (), {})
+    inexact = type('inexact', (), {})
+    floating = type('floating', (), {})
+    complexfloating = type('complexfloating', (), {})
+    bool_ = type('bool_', (), {})
+
+    @staticmethod
+    def issubdtype(d, t):
+        """NumPy's scalar type hierarchy: bool_ is NOT a sub-dtype of integer or number"""
+        def cls_of(x):
+            if isinstance(x, A.DType):
+                return x.cls
+            if x is float:
+                return 'real'
+            if x is complex:
+                return 'complex'
+            if x is int:
+                return 'int'
+            if x is bool:
+                return 'bool'
+            n = getattr(x, '__name__', None) or (x if isinstance(x, str) else None)
+            if n in ('float32', 'float64', 'float'):
+                return 'real'
+            if n in ('complex64', 'complex128', 'complex'):
+                return 'complex'
+            if n in ('int32', 'int64', 'int', 'intp'):
+                return 'int'
+            if n in ('bool_', 'bool'):
+                return 'bool'
+            return None
+        c = cls_of(d)
+        if c is None:
+            raise AnalysisError(f'np.issubdtype of {d!r} has no model')
+        tn = getattr(t, '__name__', None) or (t if isinstance(t, str) else None)
+        ct = cls_of(t)
+        up = {'bool': {'bool_', 'generic'}, 'int': {'integer', 'signedinteger', 'number', 'generic'}, 'real': {'floating', 'inexact', 'number', 'generic'},
+              'complex': {'complexfloating', 'inexact', 'number', 'generic'}}[c]
+        if tn in up:
+            return True
+        if tn in ('bool_', 'generic', 'integer', 'signedinteger', 'number', 'floating', 'inexact', 'complexfloating'):
+            return False
+        if ct is not None:
+            return ct == c
+        raise AnalysisError(f'np.issubdtype(..., {t!r}) has no model')
+
+    @staticmethod
+    def imag(a):
+        if isinstance(a, (int, float)):
+            return 0.0
+        a = as_arr(a)
+        return Arr(a.shape, a.legs, 'real', None, {k: v for k, v in a.tags.items() if k in ('prov',)}, 'imag', parents=(a,))
+
     linalg = FakeNpLinalg
     random = FakeRandom
 
